@@ -39,6 +39,30 @@ CLAIMED = {
             "All 256 stream_type codes are checked through LookupPmtStreamType, NewPmtElementaryStream, streams decoded from a reference-built PMT and the by-PID query against the statement's code lists (typed into the harness); each decoder is checked on generated well-formed bodies of its kind and for its neutral value under every other tag.",
             "Trusted: the harness' transcription of the statement's lists and decoder definitions. Ranges as in the quantifier text (bitrate < 2^21, Dolby Vision level < 32).",
             "DESIGN.md section 4 C20"),
+    "C08": ("property-based testing (rapid) with an independent SCTE 35 reference encoder: generated sections are decoded and every getter compared with the model ('modulo meaning'); negative generator for the four rejection classes; native fuzz over the same generator in the thorough tier",
+            "Reference-encoded splice_info_sections over the whole supported syntax (all splice_insert modes, components, break_duration, 33/40-bit boundary values, 0..5 segmentation/foreign descriptors of all shapes, MID lists, sub-segments, pointer_field) are decoded and every getter of signal, command, components, descriptors, offsets and UPIDs is compared with the model where the syntax carries the field; PTS() against (pts_time + pts_adjustment) mod 2^33; descriptor back-references; unsupported command / encrypted / unknown table id / non-CUEI identifier must map to their sentinel errors.",
+            "Trusted: ref.Splice encoder (written from SCTE 35 section 9) and ref.CRC32MPEG2. time-less time_signal / program splice are outside the supported list.",
+            "DESIGN.md section 4 C08"),
+    "C09": ("model-based property-based testing (rapid): signals realised through the creation/setter API (with set-then-clear noise) or by decoding, followed by a generated history of setter calls applied to library and model; differential against the reference encoder byte for byte, round trip through the decoder, idempotence, CRC residue under the independent CRC",
+            "UpdateData() must equal the reference encoding of the model in the library's normal form for every generated (construction path, setter history); section_length/CRC are checked independently; Data() must not change before UpdateData(); UpdateData twice and String() leave the bytes unchanged; descriptor getters reflect setters; decoding the encoded bytes reports the model; a decoded canonical section re-encodes to itself. 39 setter kinds incl. flag clearing, out-of-width values, UPID kind switching, descriptor list and command replacement.",
+            "Trusted: ref.Splice encoder, ref.CRC32MPEG2, the harness' model of documented setter semantics. Undocumented SetTypeID/sub-segment interaction is neutralised by re-setting the flag.",
+            "DESIGN.md section 4 C09"),
+    "C10": ("stateful property-based testing (rapid): generated ProcessDescriptor/Close/Open histories with history invariants by object identity checked after every call; bounded-exhaustive histories of length <= 4 over an 11-symbol alphabet",
+            "Histories of up to 40 calls over a 26-type alphabet (both API-built and decoded descriptors, shared and advancing signal times, immediate re-processing, PTS-less signals, explicit closes of open/old/fresh descriptors); after every call the open list and the closed list are checked against the invariants of the statement (no unprocessed/closed/discarded/duplicate entries, opening order, closed => was open, closable per the transcribed rule table, last-opened first, duplicate and PTS-less rejection leave the state unchanged); a recovered panic is a violation.",
+            "Trusted: the history bookkeeping in the harness and ref.CloseRules. A breakaway counts as open while hidden; what vanishes from Open() at a resumption counts as discarded.",
+            "DESIGN.md section 4 C10"),
+    "C11": ("property-based testing (rapid) with a reference PES encoder + enumeration of stream ids x timestamp modes x header_data_length",
+            "Reference-built PES packet starts (all stream ids, flag bits, PTS/DTS modes with boundary-bit values, correctly sized optional fields, header stuffing to 255, data) are decoded and every getter and Data() compared with the model; carried in transport packets with PUSI on/off, payload sizes 0..184 and intact or bit-flipped start-code prefix, packet.PESHeader and pes.AlignedPUSI are compared with the statement's conditions.",
+            "Trusted: ref.PES, ref.Packet. 0xBC only prefix/id; ids without optional header carry >= 1 data byte; AlignedPUSI only asserted for complete headers.",
+            "DESIGN.md section 4 C11"),
+    "C12": ("property-based testing (rapid) with a reference EBP encoder for both flavours: decode comparison, byte-identical re-encode, builder-API round trip, time round trip with exact integer reference arithmetic; enumeration of all flag bytes",
+            "Reference-built Comcast and CableLabs EBPs (all flags, grouping chains, partition, reserved bytes) are decoded and compared getter by getter, re-encoded and compared byte for byte; the same model realised through Create*/setters must encode to bytes that decode to the same values with a correct length byte; instants over the whole NTP range biased to second edges must survive SetEBPTime/EBPTime within 1 ns.",
+            "Trusted: ref.EBP, ref.EBPTimeUnix (exact integer arithmetic). EBP size <= 183 bytes, non-empty EBPs, flags only set (Set*Flag(false) is a no-op by design).",
+            "DESIGN.md section 4 C12"),
+    "C19": ("exhaustive enumeration of the finite abstraction (65536 type pairs x 16 condition combinations; 720-descriptor family for equality) + property-based testing (rapid) that all other descriptor fields do not matter",
+            "CanClose is evaluated on real descriptor objects for all 256x256 type pairs x event-equal x PTS-equal x segnum=expected x sub-segments and compared with a hand-transcribed rule table; IsIn/IsOut for all 256 types; Equal on all ordered pairs of a 720-descriptor family for definition, reflexivity, symmetry, and congruence on equal pairs; rapid triples with every other field varied (API-built and decoded objects) check 'depends only on', transitivity and congruence.",
+            "Trusted: ref.CloseRules (transcription of the pinned commit's table; an intentional upstream rule change must be mirrored there).",
+            "DESIGN.md section 4 C19"),
     "C13": ("differential testing against an independent CRC-32/MPEG-2 reference: exhaustive for lengths 0-2 and single-bit strings, property-based (rapid) otherwise",
             "ComputeCRC is compared with a reference written from the definition (bitwise and table-driven twins, catalogue check value) on all strings of length <= 2, all single-bit strings up to 96 bytes + sampled lengths to 1024 (thorough: all to 1024), and random strings up to 4096 bytes; the appended-CRC residue is checked with both implementations. Residues of emitted sections are asserted in the C09/C14 oracles.",
             "Trusted: the reference CRC (self-checked at start-up against 0x0376E6E7 for '123456789').",
